@@ -397,6 +397,9 @@ func runC16(args []string) error {
 		}
 		hk.Inc("odd-table-names")
 	}
+	if err := runC16EngineNames(sum); err != nil {
+		return err
+	}
 	// ---- malformed stream: random garbage in every field; only survival and "no effect on rejection" are checked ----
 	ng := rf.count(150, 3000)
 	// ---- extreme numeric fields on requests that MATCH existing pairs: run in a child process, because what such a
